@@ -52,6 +52,8 @@ def gen_dir(ctx, idx, n):
 def gen_queries(rng, root):
     cols_pool = ["name", "size", "path", "ext", "dir", "mode", "is_dir", "hardlinks"]
     qs = []
+    # (always: one query whose single column is empty for some rows - a record of one empty field)
+    qs.append(("streamed", ["ext"], "from %s" % root))
     for path in ("streamed", "ordered", "ordered_ties", "ordered_limited", "limited", "aggregate", "grouped"):
         if path == "aggregate":
             cols = rng.sample(["count(*)", "sum(size)", "max(size)", "min(size)"], rng.randint(1, 3))
@@ -95,7 +97,7 @@ def run(ctx):
     ndirs = 4 if ctx.tier == "quick" else 60
     jobs = []
     for i in range(ndirs):
-        d = gen_dir(ctx, i, rng.choice([0, 1, 2, 6, 12, 25]) if i else 14)
+        d = gen_dir(ctx, i, 14 if i == 0 else 0 if i == 1 else 1 if i == 2 else rng.choice([0, 1, 2, 6, 12, 25]))      # always: many rows, no row at all (every result path x every format), one row
         for path, cols, tail in gen_queries(rng, os.path.basename(d)):
             jobs.append(dict(path=path, cols=cols, tail=tail))
 
